@@ -718,7 +718,17 @@ def rule_lzma_header(facts):
                         cnt = None
             bits.append((cnt, bit[1] if bit[0] == "const" else None, pat.has_field(prob, "is_match")))
         want = [(1, 1, True), (1, 0, False), (4, 0, False), (6, 1, False), (30, 1, False)]
-        if bits == want:
+
+        def merged(seq):
+            out = []
+            for cnt, bit, ism in seq:
+                if out and cnt is not None and out[-1][0] is not None and out[-1][1:] == (bit, ism):
+                    out[-1] = (out[-1][0] + cnt, bit, ism)
+                else:
+                    out.append((cnt, bit, ism))
+            return out
+        # consecutive bits of one value coded with a fresh probability may be grouped differently: only the sequence counts
+        if merged(bits) == merged(want):
             r.ok("constant", {"end marker": "match=1, rep=0, 4 x 0 (len 2), 6 x 1 (slot 63), 30 x 1 (distance 0xFFFFFFFF)"})
         else:
             r.bad("lzmahdr|marker-bits", "the end marker bit pattern is %s, the format's is %s" % (bits, want), pat.where(f))
@@ -884,13 +894,18 @@ def rule_rangecoder(facts):
                         if q[0] == "arg" and q[2] == "byte":
                             return byte
                         if q[0] == "field" and pat.has_call(q, "::next"):
-                            return i_
+                            # the value of the loop variable in round i_: 0..8 counts up, (0..8).rev() counts down
+                            return (7 - i_) if pat.has_call(q, "::rev") else i_
                         if q[0] == "phi":
                             return acc
                         raise pat.NotEvaluable(q)
                     return f
                 try:
-                    if t[0] == "Ne" and pat.has_arg(t, "byte") and all(pat.eval_term(t, lf(by, i_, 1)) == ((by >> (7 - i_)) & 1)
+                    if t[0] in ("Ne", "Eq") and pat.has_arg(t, "byte") and all(
+                            pat.eval_term(t, lf(by, i_, 1)) == (((by >> (7 - i_)) & 1) ^ (1 if t[0] == "Eq" else 0))
+                            for by in (0, 0x80, 0x55, 0xAA, 0xFF, 0x01) for i_ in range(8)):
+                        okb = True
+                    if False and t[0] == "Ne" and pat.has_arg(t, "byte") and all(pat.eval_term(t, lf(by, i_, 1)) == ((by >> (7 - i_)) & 1)
                                                                        for by in (0, 0x80, 0x55, 0xAA, 0xFF, 0x01) for i_ in range(8)):
                         okb = True
                     if t[0] in ("BitXor", "BitOr", "Add") and pat.has_arg(t, "byte") and \
@@ -933,22 +948,48 @@ def rule_rangecoder(facts):
         r.ok("constant", {"initial": want})
     else:
         r.bad("rangeenc|init", "initial encoder state is not %s" % want, pat.where(nw))
-    # write_low constants
-    gw, tw = pat.guards(wl)
-    consts = set()
-    for (_, t, _, _) in gw:
-        for q in _subterms(t):
-            if q[0] == "const" and isinstance(q[1], int):
-                consts.add(q[1])
-    shifts = set()
-    for blk in wl.blocks:
-        for s in blk.stmts:
-            if s.k == "assign" and s.rv.k == "binop" and s.rv.binop in ("Shr", "Shl") and s.rv.b.const_int() is not None:
-                shifts.add((s.rv.binop, s.rv.b.const_int()))
-    if {0xFF000000, 0xFFFFFFFF} <= consts and {("Shr", 32), ("Shr", 24), ("Shl", 8)} <= shifts:
-        r.ok("constant", {"write_low": "carry test low < 0xFF000000 || low > 0xFFFFFFFF; shifts 32 / 24 / 8"})
+    # write_low: when it flushes and what it leaves in `low`, as functions of low (evaluated, whatever the spelling)
+    ptw = PosTerms(wl)
+    cw = cfg(wl)
+    tmw = Terms(wl)
+    wcalls = {blk.idx for blk in wl.calls() if blk.idx in cw.reach and blk.term.args and "Write" in (flow.declared(blk.term) or "") and
+              pat.has_field(tmw.of_operand(blk.term.args[0]), "stream")}
+    lows = [0, 1, 0x00FF_FFFF, 0x0100_0000, 0xFEFF_FFFF, 0xFF00_0000, 0xFF00_0001, 0xFFFF_FFFF, 0x1_0000_0000, 0x1_0000_0001,
+            0x1_7FFF_FFFF, 0x1_FEFF_FFFF, 0x1_FF00_0000, 0x1_FFFF_FFFF]
+    bad = None
+    try:
+        for lo_ in lows:
+            def lfw(q, lo_=lo_):
+                if q[0] == "field" and q[1] == "low":
+                    return lo_
+                raise pat.NotEvaluable(q)
+            got = pat.reached_under(wl, ptw, 0, lfw, wcalls | set(cw.returns))
+            flushed = bool(got & wcalls)
+            if flushed != (lo_ < 0xFF00_0000 or lo_ > 0xFFFF_FFFF):
+                bad = "with low = %#x write_low %s the cached bytes; they are decided exactly when low < 0xFF000000 or low > 0xFFFFFFFF" % (
+                    lo_, "flushes" if flushed else "keeps")
+                break
+        st_low = [ptw.at(blk.idx, i).of_rvalue(s_.rv, blk.idx) for blk in wl.blocks if not blk.cleanup and blk.idx in cw.reach
+                  for i, s_ in enumerate(blk.stmts) if s_.k == "assign" and s_.place.proj and s_.place.proj[-1][0] == "field" and
+                  s_.place.proj[-1][2] == "low"]
+        if bad is None and len(st_low) != 1:
+            bad = "low is stored %d times in write_low" % len(st_low)
+        if bad is None:
+            for lo_ in lows:
+                v = pat.eval_term(st_low[0], lambda q, lo_=lo_: lo_ if (q[0] == "field" and q[1] == "low") else (_ for _ in ()).throw(pat.NotEvaluable(q)))
+                if v != (lo_ << 8) & 0xFFFF_FFFF:
+                    bad = "low = %#x becomes %#x, the coder needs (low << 8) & 0xFFFFFFFF = %#x" % (lo_, v, (lo_ << 8) & 0xFFFF_FFFF)
+                    break
+    except pat.Overflow:
+        bad = "an operation on low overflows"
+    except pat.NotEvaluable as ex:
+        bad = None
+        r.bad("rangeenc|write-low-term", "cannot evaluate write_low's tests / stores as functions of low", pat.where(wl), "unverifiable")
     else:
-        r.bad("rangeenc|write-low", "carry handling constants changed: tests %s shifts %s" % (sorted(consts), sorted(shifts)), pat.where(wl))
+        if bad:
+            r.bad("rangeenc|write-low", bad, pat.where(wl))
+        else:
+            r.ok("evaluation", {"write_low": "flush iff low < 0xFF000000 or low > 0xFFFFFFFF; low = (low << 8) & 0xFFFFFFFF (14 values of low)"})
     return r
 
 
